@@ -526,6 +526,10 @@ class EngineWorld:
                        elapsed=ri.elapsed_seconds, run=self._run_id_of(ctx),
                        runner=runners[-1]._sim_runner_no if runners else None)
         self.open_bodies[rec["inv"]] = rec
+        if isinstance(ev, StepFailedEvent):
+            self.trace.log("step-failed-event", handler=s["name"], step=ev.step_name, attempts=ev.attempts,
+                           elapsed=ev.elapsed_seconds, exc=type(ev.exception).__name__, msg=str(ev.exception),
+                           in_uid=uid_of(ev.input_event), inv=rec["inv"])
         return rec
 
     def _run_id_of(self, ctx: Context) -> str:
@@ -631,6 +635,14 @@ class EngineWorld:
                 self.fail_counts[key] = c + 1
                 self.fault("step-failure")
                 raise EV.EXCS[exc](f"{name}/{in_uid}/f{c}")
+        elif op == "failseq":
+            _, excs, k = act
+            key = (name, _hashable(in_uid))
+            c = self.fail_counts.get(key, 0)
+            if k < 0 or c < k:
+                self.fail_counts[key] = c + 1
+                self.fault("step-failure")
+                raise EV.EXCS[excs[c % len(excs)]](f"{name}/{in_uid}/f{c}")
         elif op == "failbase":
             self.fault("step-baseexception")
             raise SimBaseExc(f"{name}/{in_uid}")
